@@ -405,12 +405,13 @@ Section WithData.
 
   Lemma applicable_the_section x : applicable (f_pol x) (f_sp x) (f_ra x) = the_section x.
   Proof.
-    unfold the_section, first_some, applicable, getsec, sec_named.
+    unfold the_section, first_some, applicable, default_section, getsec, sec_named.
     destruct (f_pol x) as [l|]; cbn [map flat_map app hd_error].
     2:{ destruct (f_ra x); reflexivity. }
-    destruct (lookup (f_sp x) l) as [[s|]|]; cbn [app hd_error]; try reflexivity;
-      (destruct (f_ra x) as [r|]; [destruct (lookup r l) as [[s'|]|]|]); cbn [app hd_error]; try reflexivity;
-      (destruct (lookup "default" l) as [[s''|]|]); cbn [app hd_error]; try reflexivity;
+    destruct (lookup (f_sp x) l) as [[s|]|]; cbn [flat_map app hd_error]; try reflexivity;
+      (destruct (f_ra x) as [r|]; [destruct (lookup r l) as [[s'|]|]|]); cbn [flat_map app hd_error]; try reflexivity;
+      (destruct (lookup "default" l) as [[s''|]|]); cbn [flat_map app hd_error]; try reflexivity;
+      try (destruct (s_bare s'')); cbn [flat_map app hd_error]; try reflexivity;
       (destruct (lookup "" l) as [[s3|]|]); reflexivity.
   Qed.
 
@@ -1081,7 +1082,7 @@ Definition w_tab : list (string * ecmap) :=
   [("m", [{| ec_key := KS ""; ec_attrs := ["eduPersonTargetedID"]; ec_only_required := false; ec_no_agg := false |}])].
 Definition witness2 : input :=
   {| i_ident := w_ident;
-     i_pol := Some [("default", Some {| s_ar := None; s_fail := None; s_ecs := ["m"] |})];
+     i_pol := Some [("default", Some {| s_ar := None; s_fail := None; s_ecs := ["m"]; s_bare := false |})];
      i_sp := "https://sp.example.org/sp.xml"; i_md := None; i_entry := ERestrict |}.
 
 Example witness2_unfiltered : o_out (run no_rx w_tab witness2) = Ok w_ident.
@@ -1098,9 +1099,9 @@ Definition ex_rx (r v : string) : bool :=
   String.eqb r ".*@example\.org$" && String.eqb v "a@example.org".
 Definition witness_ok : input :=
   {| i_ident := w_ident;
-     i_pol := Some [("default", Some {| s_ar := None; s_fail := None; s_ecs := [] |});
+     i_pol := Some [("default", Some {| s_ar := None; s_fail := None; s_ecs := []; s_bare := false |});
                     ("https://sp.example.org/sp.xml",
-                     Some {| s_ar := Some [("mail", Some [".*@example\.org$"])]; s_fail := None; s_ecs := [] |})];
+                     Some {| s_ar := Some [("mail", Some [".*@example\.org$"])]; s_fail := None; s_ecs := []; s_bare := false |})];
      i_sp := "https://sp.example.org/sp.xml"; i_md := Some (w_md false); i_entry := EServer |}.
 
 Example witness_ok_guarded :
@@ -1114,7 +1115,7 @@ Definition w_tab2 : list (string * ecmap) :=
           {| ec_key := KS "http://ec/rs"; ec_attrs := ["mail"; "givenName"]; ec_only_required := false; ec_no_agg := false |}])].
 Definition witness_ec : input :=
   {| i_ident := w_ident;
-     i_pol := Some [("default", Some {| s_ar := None; s_fail := None; s_ecs := ["m"] |})];
+     i_pol := Some [("default", Some {| s_ar := None; s_fail := None; s_ecs := ["m"]; s_bare := false |})];
      i_sp := "https://sp.example.org/sp.xml";
      i_md := Some {| md_ras := []; md_sid := None; md_sid_loc := (None, None); md_ecs := ["http://ec/rs"]; md_ra := None |};
      i_entry := EApply |}.
